@@ -63,6 +63,7 @@ theorem step_base (w : World) (a : Action) : (step w a).base = w.base := by
   | gettx m => exact stepGetTx_base w m
   | giveup => exact stepGiveup_base w
   | wait => exact stepWait_base w
+  | poll => simp only [step]; split <;> first | rfl | simp only [settle_base]
   | restart => simp only [step]; split <;> rfl
   | crash => rfl
   | bump n => rfl
